@@ -2,7 +2,7 @@
   Driver/StoreDrv.lean — line protocol for FillAbsent and the candle-store model.
   `fa <start> <stop> <n> (ts o c h l v)*` · `st addseq <n> (…)*` · `st addmulti <k> (…)* <m> (…)*` ·
   `st get <tfMinutes> <k> (short…) <j> (long…)` · `st current <tfMinutes> <k> (…) <j> (…)` ·
-  `st spacing <n> (…)*` · `st addseqd <bucket> <n> (…)*` · `st addmultid <bucket> <k> (…)* <m> (…)*` (the same calls ON THE ARRAY MODEL, Jesse/StoreD.lean)
+  `st spacing <n> (…)*` · `st warm <k> <tf>*k <n> (…)*` (warm-up injection: 1m array and one array per bigger timeframe) · `st addseqd <bucket> <n> (…)*` · `st addmultid <bucket> <k> (…)* <m> (…)*` (the same calls ON THE ARRAY MODEL, Jesse/StoreD.lean)
 -/
 import Jesse.Wire
 import Jesse.FillAbsent
@@ -51,6 +51,17 @@ def handleSt (args : List String) : String :=
         | .ok a => "ok [" ++ ";".intercalate (a.abs.map (fun r => " ".intercalate (r.map showRat))) ++ "]"
         | .error e => "err " ++ e.name)
      | _, _ => "bad-op")
+  | "warm" :: k :: rest =>
+    (match k.toNat? with
+     | some k =>
+       (match (rest.take k).mapM String.toNat?, countThen (rest.drop k) with
+        | some tfs, some (cs, []) =>
+          (match Store.injectWarmup tfs cs with
+           | .ok (short, longs) =>
+             "ok " ++ showCandles short ++ String.join (longs.map (fun (m, l) => s!" | {m} " ++ showCandles l))
+           | .error e => "err " ++ e.name)
+        | _, _ => "bad-op")
+     | none => "bad-op")
   | "addmultid" :: b :: rest =>
     (match b.toNat?, countThen rest with
      | some b, some (arr, rest2) => (match countThen rest2 with
